@@ -128,11 +128,16 @@ def run_script(drv, bdir, ops, want_emu, keep=None, shim=None, tmpdir=False, pro
         open(sp, "w").write("\n".join(lines) + "\n")
         td = os.path.join(d, "ovni")
         env = {"OVNI_TRACEDIR": td}
-        if tmpdir:
+        if tmpdir == "alias":
+            # the temporary directory IS the trace directory (here through a symbolic link)
+            os.makedirs(td, exist_ok=True)
+            os.symlink("ovni", os.path.join(d, "tmp"))
+            env["OVNI_TMPDIR"] = os.path.join(d, "tmp")
+        elif tmpdir:
             env["OVNI_TMPDIR"] = os.path.join(d, "tmp")      # streams are relocated at ovni_thread_free
         if stale:
             # files of an earlier run with the same loom / pid / tid are still there (a longer stream)
-            for root in ([td] + ([env["OVNI_TMPDIR"]] if tmpdir else [])):
+            for root in ([td] + ([env["OVNI_TMPDIR"]] if tmpdir and tmpdir != "alias" else [])):
                 sd = obs.stream_dir(root, "node0", pid_, tid_)
                 os.makedirs(sd, exist_ok=True)
                 with open(os.path.join(sd, "stream.obs"), "wb") as f:
@@ -436,7 +441,8 @@ def main(pid, tier):
         # (so the first flush can find very few bytes in the buffer); every seventh script uses a
         # 7-digit pid and tid
         return run_script(drv, bdir, ops, want_emu, shim=shim if k % 3 == 1 else None,
-                          tmpdir=(k % 3 == 2 or k % 6 == 1), protocol=(pid != "C01" or k % 5 != 4),
+                          tmpdir=("alias" if k % 13 == 6 else (k % 3 == 2 or k % 6 == 1)),
+                          protocol=(pid != "C01" or k % 5 != 4),
                           ids=(1048579, 4194301) if k % 7 == 3 else (1000, 1000), stale=(k % 11 == 5))
 
     ck.phase('generate')
